@@ -926,6 +926,18 @@ def replay(v, path, unknown="?%s"):
                 v.env[name] = v.val(node)
             except Undecidable:
                 v.env.pop(name, None)
+                inner_ = node
+                while isinstance(inner_, ast.Call) and norm(inner_.func).split(".")[-1] in ("PrivVal", "PrivValBool", "int") and len(inner_.args) == 1:
+                    inner_ = inner_.args[0]
+                if isinstance(inner_, ast.Call) and getattr(v, "bit_calls", None) is not None and v.bit_calls(inner_):
+                    # a witness hinted with the result of a helper that returns 0 or 1 on every return (or raises): a bit whose two
+                    # values are two cases
+                    one_ = ast.Compare(left=ast.Name(id=name, ctx=ast.Load()), ops=[ast.Eq()], comparators=[ast.Constant(value=1)])
+                    tr_ = v.facts.truth.get(norm(one_))
+                    if tr_ is None:
+                        raise NeedCase(one_)
+                    v.env[name] = P.const(1 if tr_ else 0)
+                    continue
                 v.env[name] = P.sym((unknown % name) + ("@%d" % getattr(node, "lineno", 0)))
         else:
             _, t, pol = st
